@@ -10,11 +10,11 @@ EXPLANATION = (
     "(internal/common.h:103-135) as guarantee clauses checked at EVERY atomic step of every function under proof - i.e. who stays "
     "responsible for waking whom at each single step: H1a MU_DESIG_WAKER is set only by a lock holder in the very step that takes the "
     "queue spinlock; H2 a woken waiter clears MU_DESIG_WAKER in the step in which it acquires or goes back to sleep; H4 MU_WAITING and "
-    "MU_CONDITION change only under the queue spinlock, and nsync_mu_unlock_slow_ (thorough tier) never clears MU_WAITING while waiters "
+    "MU_CONDITION change only under the queue spinlock, and nsync_mu_unlock_slow_ (bounded body group) never clears MU_WAITING while waiters "
     "remain queued; H5 the sleep/wake handshake: a thread sleeps only after publishing waiting = 1 for its queued record, and wakers "
     "(wake_waiters, nsync_mu_unlock_slow_) clear that flag with release order BEFORE posting the semaphore; the spinlock is taken only "
     "when free and released only by its owner. H1 (the thread that set MU_DESIG_WAKER wakes a waiter or clears the bit again) is a "
-    "postcondition of nsync_mu_unlock_slow_ (thorough tier). Each clause is a necessary condition for hand-off, not a proof of it.")
+    "postcondition of nsync_mu_unlock_slow_ (bounded body group: every loop unwound 4x quick / 6x thorough). H6 the thread that raised MU_LONG_WAIT clears it in the step in which it acquires; H7 whoever takes the queue spinlock to add a waiter (lock_slow, mu_wait, the cv-to-mutex transfer of wake_waiters) clears MU_ALL_FALSE, so that a reader's release does not skip the new waiter. Each clause is a necessary condition for hand-off, not a proof of it.")
 LEVEL_TEXT = ("liveness (eventual return under fair scheduling, no starvation) is not decidable by function contracts; the safety core - the "
               "per-step responsibility rules of the word protocol and 'trylock never blocks' - is proved, hence level other")
 ASSUMPTIONS = ["counting and binary semaphores are both covered by the abstract semaphore stub (no effect on any nsync word)"]
